@@ -84,6 +84,19 @@ func (app *Haqq) prepForZeroHeightGenesis(ctx sdk.Context, jailAllowedAddrs []st
 	/* Just to be safe, assert the invariants on current state. */
 	app.CrisisKeeper.AssertInvariants(ctx)
 
+	/* Handle fee market state. */
+
+	// EnableHeight is a height of the exported chain; the new chain counts from 1 again
+	fmParams := app.FeeMarketKeeper.GetParams(ctx)
+	if fmParams.EnableHeight <= ctx.BlockHeight() {
+		fmParams.EnableHeight = 0
+	} else {
+		fmParams.EnableHeight -= ctx.BlockHeight()
+	}
+	if err := app.FeeMarketKeeper.SetParams(ctx, fmParams); err != nil {
+		return err
+	}
+
 	/* Handle fee distribution state. */
 
 	// withdraw all validator commission
